@@ -25,7 +25,7 @@ from vyper.evm.assembler.instructions import (
 from vyper.evm.assembler.optimizer import optimize_assembly
 from vyper.evm.assembler.symbols import CONSTREF, Label
 from vyper.evm.opcodes import get_opcodes
-from vyper.exceptions import CodegenPanic, CompilerPanic
+from vyper.exceptions import CodegenPanic, CompilerPanic, UnimplementedException
 from vyper.utils import MemoryPositions
 from vyper.version import version_tuple
 
@@ -144,6 +144,19 @@ def compile_to_assembly(
     return res
 
 
+def _stack_too_deep(code: IRnode) -> Exception:
+    # a limit of this code generator (no stack spilling), not a bug in the
+    # user's program and not an internal inconsistency: report it as an
+    # ordinary diagnostic which points at the source construct
+    return UnimplementedException(
+        "Stack too deep: this statement needs more than 16 stack items at once, which the "
+        "default code generator cannot address. Split it into smaller statements (e.g. "
+        "avoid deeply nested dynamic arrays in a single expression), or try a different "
+        "optimization level or `--experimental-codegen`.",
+        code.ast_source,
+    )
+
+
 class _IRnodeLowerer:
     # map from variable names to height in stack
     withargs: dict[str, int]
@@ -228,7 +241,13 @@ class _IRnodeLowerer:
         return ofst_asm + [pushsym, "ADD"]
 
     def _compile_r(self, code: IRnode, height: int) -> list[AssemblyInstruction]:
-        asm = self._step_r(code, height)
+        try:
+            asm = self._step_r(code, height)
+        except UnimplementedException as e:
+            # point at the innermost enclosing IR node which knows its source
+            if not e.annotations and code.ast_source is not None:
+                raise e.with_annotation(code.ast_source) from None
+            raise
         # CMC 2025-05-08 this is O(n^2).. :'(
         for i, item in enumerate(asm):
             if isinstance(item, str) and not isinstance(item, TaggedInstruction):
@@ -239,7 +258,7 @@ class _IRnodeLowerer:
         def _height_of(varname):
             ret = height - self.withargs[varname]
             if ret > 16:  # pragma: nocover
-                raise Exception("With statement too deep")
+                raise _stack_too_deep(code)
             return ret
 
         if isinstance(code.value, str) and code.value.upper() in get_opcodes():
@@ -269,7 +288,7 @@ class _IRnodeLowerer:
                 raise Exception("Set expects two arguments, the first being a stack variable")
             # TODO: use _height_of
             if height - self.withargs[varname] > 16:
-                raise Exception("With statement too deep")
+                raise _stack_too_deep(code)
             swap_instr = "SWAP" + str(height - self.withargs[varname])
             return self._compile_r(code.args[1], height) + [swap_instr, "POP"]
 
